@@ -9,7 +9,8 @@ RULE = ('random configurations (world 1–8, every divisor k, colocate, method, 
         'KFACPreconditioner runs on simulated ranks under a seeded deterministic scheduler (three stickiness '
         'levels); per-rank traces of (kind, members, element count, element size, root) issues and of every '
         'future wait are compared exactly, in order, with the projection of the Lean global script; the trace '
-        'matcher oracle checks matching/membership/roots/new_group order/stalls directly; non-trivial = world>1 and ≥2 steps')
+        'matcher oracle checks matching/membership/roots/new_group order/stalls directly; non-trivial = world>1 and ≥2 steps'
+        '; further input dimensions: launcher environment of a multi-node job (LOCAL_RANK ≠ rank), a loss overflowing on a strict subset of ranks (value independence), bfloat16 second-order data, nested module names, tensors kept alive between iterations')
 TRUSTED = [
     'Lean 4.33 kernel; axioms audited ⊆ {propext, Classical.choice, Quot.sound}',
     'hand-written models KV.Precond (K-FAC state machine emitting the global script) and KV.Sched2 (collective semantics) '
